@@ -65,3 +65,18 @@ func init() {
 			return runBlock(r, focus{prop: "C11", headerFaults: 0.6, txFaults: 0.02, permFaults: 0.05, failOps: 0.05, tightUnits: 0.0, bigCosts: 0.0, dupTx: 0.02, maxTxs: 3})
 		}})
 }
+
+func init() {
+	register(&simk.Prop{ID: "C07", Level: "exploration",
+		Rule: e2Rule + "; focus: every transaction signs a maximum fee in {0, 1, fee-1, fee, fee+1, max} relative to the fee it is charged at the block's unit prices; three parties are judged: block verification (Processor.Execute), the builder (BuildBlock from a mempool holding such a tx) and mempool admission (PreExecutor.PreExecute at the simulated current time)",
+		Real: append([]string{"chain.PreExecutor", "chain.Builder"}, e2Real...), Stub: e2Stub,
+		Exec: func(r *simk.Run) *simk.Violation {
+			switch r.C.Intn(4) {
+			case 0:
+				return c07Admission(r)
+			case 1:
+				return c07Builder(r)
+			}
+			return runBlock(r, focus{prop: "C07", headerFaults: 0, txFaults: 0.02, permFaults: 0.05, failOps: 0.1, maxFeeFaults: 0.7, maxTxs: 4})
+		}})
+}
